@@ -18,6 +18,7 @@ static float f_from_bits(uint32_t b) { float f; memcpy(&f, &b, 4); return f; }
 static __thread uint64_t g_built_variants[16];
 
 cbor_item_t* ser_build_variant(const rnode* n, struct vh_rng* r);
+static __thread uint64_t g_late_filled;
 #define build_v ser_build_variant
 
 static cbor_item_t* build_int(const rnode* n, struct vh_rng* r) {
@@ -81,13 +82,24 @@ cbor_item_t* ser_build_variant(const rnode* n, struct vh_rng* r) {
       if (n->indef) {
         it = text ? cbor_new_indefinite_string() : cbor_new_indefinite_bytestring();
         if (!it) return NULL;
+        /* one chunked string in three is assembled structure first, contents later: every chunk is attached while it
+         * still has no buffer and receives its bytes afterwards */
+        bool late = vh_below(r, 3) == 0;
         for (size_t i = 0; i < n->nkids; i++) {
-          cbor_item_t* c = build_v(n->kids[i], r);
+          const rnode* k = n->kids[i];
+          cbor_item_t* c = late && !k->indef ? (text ? cbor_new_definite_string() : cbor_new_definite_bytestring()) : build_v(k, r);
           if (!c) { cbor_decref(&it); return NULL; }
           bool ok = text ? cbor_string_add_chunk(it, c) : cbor_bytestring_add_chunk(it, c);
+          if (ok && late && !k->indef && k->len) {
+            unsigned char* h = _cbor_malloc(k->len);
+            if (!h) { cbor_decref(&c); cbor_decref(&it); return NULL; }
+            memcpy(h, k->bytes, k->len);
+            if (text) cbor_string_set_handle(c, h, k->len); else cbor_bytestring_set_handle(c, h, k->len);
+          }
           cbor_decref(&c);
           if (!ok) { cbor_decref(&it); return NULL; }
         }
+        if (late) g_late_filled++;
         return it;
       }
       int v = (int)vh_below(r, 4);
@@ -875,6 +887,7 @@ static void stage_api(void) {
     api_case(u, O.seed);
   }
   vh_count_dyn("paired_mutations_applied_before_second_serialization", g_pair_mutations);
+  vh_count_dyn("variants.chunks_filled_after_attach", g_late_filled);
   for (int i = 0; i < 8; i++) { char nm[48]; static const char* vn[] = {"ints_build", "ints_new_set", "handleless_strings", "set_handle", "build_string_z", "shared_subitems", "spare_capacity", "retagged"}; snprintf(nm, sizeof nm, "variants.%s", vn[i]); vh_count_dyn(nm, g_built_variants[i]); }
 }
 
